@@ -1,0 +1,58 @@
+//go:build verif
+
+// Contracts for govc (contract-based deductive verification); comments only.
+package strategies
+
+//@ import ri "github.com/NVIDIA/KAI-scheduler/pkg/scheduler/api/resource_info"
+//@ constglobal strategies
+
+// remaining share of the reclaimee is NOT within its allocatable share (max(deserved, fair share), capped by the limit)
+//@ define overAllocatable(q *rs.QueueAttributes, rem rs.ResourceQuantities) bool = !(rs.leq(rem["CPU"], rs.allocatable(q.CPU)) && rs.leq(rem["Memory"], rs.allocatable(q.Memory)) && rs.leq(rem["GPU"], rs.allocatable(q.GPU)))
+// remaining share of the reclaimee is NOT within its deserved quota in every resource
+//@ define overDeserved(q *rs.QueueAttributes, rem rs.ResourceQuantities) bool = !(rs.leq(rem["CPU"], q.CPU.Deserved) && rs.leq(rem["Memory"], q.Memory.Deserved) && rs.leq(rem["GPU"], q.GPU.Deserved))
+// the reclaimer's queue stays within its deserved quota in every resource after receiving the request
+// a memoised quantity map of q is either untouched or replaced by a newly allocated map
+//@ define cachesKeptOrNew(q *rs.QueueAttributes) bool = (q.lastDeservedShare == old(q.lastDeservedShare) || fresh(q.lastDeservedShare)) && (q.lastFairShare == old(q.lastFairShare) || fresh(q.lastFairShare))
+//@ define reclaimerWithinQuota(res *ri.Resource, q *rs.QueueAttributes) bool = rs.leq(q.CPU.Allocated + res.milliCpu, q.CPU.Deserved) && rs.leq(q.Memory.Allocated + res.memory, q.Memory.Deserved) && rs.leq(q.GPU.Allocated + res.gpus + ri.migGpus(res), q.GPU.Deserved)
+
+//@ func reclaimerWillGoOverQuota
+//@   props C07
+//@   requires reclaimerResources != nil && reclaimerQueue != nil && rs.cacheOK(reclaimerQueue)
+//@   modifies reclaimerQueue.lastDeservedShare
+//@   ensures result == !reclaimerWithinQuota(reclaimerResources, reclaimerQueue)
+//@   ensures rs.cacheOK(reclaimerQueue)
+//@   ensures [cachesKeptOrNew] cachesKeptOrNew(reclaimerQueue)
+//@ end
+
+//@ func (*MaintainFairShareStrategy).Reclaimable
+//@   props C07
+//@   requires reclaimerQueue != nil && reclaimeeQueue != nil && rs.cacheOK(reclaimeeQueue) && rs.cacheOK(reclaimerQueue)
+//@   modifies reclaimeeQueue.lastDeservedShare, reclaimeeQueue.lastFairShare, reclaimerQueue.lastDeservedShare, reclaimerQueue.lastFairShare
+//@   ensures result == overAllocatable(reclaimeeQueue, reclaimeeRemainingShare)
+//@   ensures rs.cacheOK(reclaimeeQueue) && rs.cacheOK(reclaimerQueue)
+//@   ensures [cachesKeptOrNew] cachesKeptOrNew(reclaimeeQueue) && cachesKeptOrNew(reclaimerQueue)
+//@ end
+
+//@ func (*GuaranteeDeservedQuotaStrategy).Reclaimable
+//@   props C07
+//@   requires reclaimerResources != nil && reclaimerQueue != nil && reclaimeeQueue != nil && rs.cacheOK(reclaimeeQueue) && rs.cacheOK(reclaimerQueue)
+//@   modifies reclaimeeQueue.lastDeservedShare, reclaimeeQueue.lastFairShare, reclaimerQueue.lastDeservedShare, reclaimerQueue.lastFairShare
+//@   ensures result == (reclaimerWithinQuota(reclaimerResources, reclaimerQueue) && overDeserved(reclaimeeQueue, reclaimeeRemainingShare))
+//@   ensures rs.cacheOK(reclaimeeQueue) && rs.cacheOK(reclaimerQueue)
+//@   ensures [cachesKeptOrNew] cachesKeptOrNew(reclaimeeQueue) && cachesKeptOrNew(reclaimerQueue)
+//@ end
+
+// Property C07 (top-level, from the property text): resources are taken only from queues above
+// their deserved quota or above their fair share; a queue within its deserved quota in every
+// resource is never reduced.
+//@ func FitsReclaimStrategy
+//@   props C07 C05
+//@   requires reclaimerResources != nil && reclaimerQueue != nil && reclaimeeQueue != nil && rs.cacheOK(reclaimeeQueue) && rs.cacheOK(reclaimerQueue)
+//@   modifies reclaimeeQueue.lastDeservedShare, reclaimeeQueue.lastFairShare, reclaimerQueue.lastDeservedShare, reclaimerQueue.lastFairShare
+//@   loop 1 unroll 2
+//@   ensures result == (overAllocatable(reclaimeeQueue, reclaimeeRemainingShare) || (reclaimerWithinQuota(reclaimerResources, reclaimerQueue) && overDeserved(reclaimeeQueue, reclaimeeRemainingShare)))
+//@   ensures [withinQuotaIsSafe] !overDeserved(reclaimeeQueue, reclaimeeRemainingShare) && !overAllocatable(reclaimeeQueue, reclaimeeRemainingShare) ==> !result
+//@   ensures [starvedReclaimerServed] reclaimerWithinQuota(reclaimerResources, reclaimerQueue) && overDeserved(reclaimeeQueue, reclaimeeRemainingShare) ==> result
+//@   ensures rs.cacheOK(reclaimeeQueue) && rs.cacheOK(reclaimerQueue)
+//@   ensures [cachesKeptOrNew] cachesKeptOrNew(reclaimeeQueue) && cachesKeptOrNew(reclaimerQueue)
+//@ end
